@@ -109,16 +109,23 @@ fn terr<A: Codec, B: Codec>(e: &TranslationError<A, B>) -> &'static str {
 
 fn codon_table<A: HC>(t: &mut Toks, keys_are_values: bool) -> R<String> {
     let n = t.num()?;
-    let mut entries: Vec<(Seq<A>, Amino)> = vec![];
+    // keys are re-built for every table (never cloned: a clone would normalise the key's buffer)
+    enum KeySrc {
+        Hex(Vec<u8>),
+        Val(V),
+    }
+    let build = |k: &KeySrc| -> R<Seq<A>> {
+        Ok(match k {
+            KeySrc::Hex(h) => Seq::<A>::try_from(h.as_slice())?,
+            KeySrc::Val(v) => eval_v::<A>(v)?,
+        })
+    };
+    let mut entries: Vec<(KeySrc, Amino)> = vec![];
     for _ in 0..n {
-        let codon = if keys_are_values {
-            eval_v::<A>(&parse_v(t)?)?
-        } else {
-            let h = t.hex()?;
-            Seq::<A>::try_from(h.as_slice())?
-        };
+        let src = if keys_are_values { KeySrc::Val(parse_v(t)?) } else { KeySrc::Hex(t.hex()?) };
+        build(&src)?;
         let a = item::<Amino>(t.num()?);
-        entries.push((codon, a));
+        entries.push((src, a));
     }
     // later pairs with an equal key overwrite the value (HashMap::from_iter)
     let nq = t.num()?;
@@ -137,7 +144,10 @@ fn codon_table<A: HC>(t: &mut Toks, keys_are_values: bool) -> R<String> {
     let mut first: Option<String> = None;
     // rebuild several times: every HashMap gets a fresh RandomState, hence a different iteration order
     for _round in 0..12 {
-        let map: HashMap<Seq<A>, Amino> = entries.iter().map(|(k, v)| (k.clone(), *v)).collect();
+        let mut map: HashMap<Seq<A>, Amino> = HashMap::new();
+        for (k, v) in &entries {
+            map.insert(build(k)?, *v);
+        }
         let table = CodonTable::from_map(map);
         let mut outs = vec![];
         for q in &qs {
